@@ -61,6 +61,24 @@ def filter_in(eng, n, st, old):
     return S
 
 
+# ---- scheduler side: the context hash a job is looked up and deduplicated under is the hash of ITS OWN effective context
+def capture_context(eng, n, st, old):
+    c = eng.opaque("job_context")
+    st.ghost["ctx"] = c
+    st.ver += 1
+    return c
+
+
+sched_contracts = {
+ "Scheduler._exec_job_main_thread": dict(where=f"{S}:Scheduler._exec_job_main_thread", params={"self": REF, "job": REF, "eval_args": OBJ},
+    ghost_local={"ctx": OBJ},
+    lib={"job.get_context()": capture_context,
+         "self.type_registry.get_hash(": lambda e, n, st, old: e.ctx.app("vh", [OBJ], STR, [e.to_obj(e.ev(n.args[0], st, old))])},
+    ensures=["implies(truthy(ctx), job.context_hash == Some(vh(ctx)))", "implies(not truthy(ctx), job.context_hash == old(job.context_hash))"]),
+}
+SCHED_MODULE = Module(fields={"context_hash": Opt(STR)}, ufuns={"vh": ([OBJ], STR), "truthy": ([OBJ], BOOL)},
+                      classes={"self": "Scheduler", "job": "Job"}, contracts=sched_contracts)
+
 MODULE = Module(
     prelude=orm.prelude(), defs_text=DEFS,
     defs={"ctx_tag": ([Set("Row_Tag"), STR, STR], BOOL), "same_context": ([Set("Row_Tag"), STR, Opt(STR)], BOOL)},
@@ -72,6 +90,7 @@ MODULE = Module(
     classes={"self": "RedunBackendDb"}, contracts=contracts,
 )
 VERIFY = ["RedunBackendDb.check_cache", "RedunBackendDb._get_call_node"]
+MODULES = [(MODULE, VERIFY), (SCHED_MODULE, ["Scheduler._exec_job_main_thread"])]
 
 
 def bounded_orders(tier, seed):
